@@ -94,7 +94,7 @@ def positConvHandler (n es : Nat) (op : String) (args : List String) (rhs : List
     let some w := parseHex ws | throw "w"
     let some r := parseHex rs | throw "r"
     let some (_, seen, truth) := intKind kind w | throw "kind"
-    let some m := fromInt n es kind w | throw "kind"
+    let some m := fromIntKind n es kind w | throw "kind"
     let (ok, why) := convSpec n es (some (truth : Rat)) r
     let cls := if kind == "ul64" && seen != truth then "value.assign.ulong_ge_2p63" else ""
     return { model := toHex m, specOk := ok, reason := why, cls := cls, tag := "fromi/" ++ kind }
